@@ -7,6 +7,11 @@ their evidence to a scratch directory, so /verif/evidence is not touched.
 
 usage: run_seeds.py [--tier quick|thorough] [name-filter ...]
 writes /verif/seeded/RESULTS.md and prints a summary.
+
+CHECKERS_HOME=<dir> runs the checkers from another checkout of /verif (e.g. a
+scratch git worktree of a tag) -- used to evaluate a round of seeds against
+checks frozen before the round; the result is then written to
+seeded/RESULTS-frozen.md instead.
 """
 import concurrent.futures as cf
 import glob
@@ -19,10 +24,11 @@ import sys
 import tempfile
 
 VERIF = "/verif"
+CHECKERS = os.environ.get("CHECKERS_HOME", VERIF)
 
 
 def props_available():
-    man = json.load(open(os.path.join(VERIF, "MANIFEST.json")))
+    man = json.load(open(os.path.join(CHECKERS, "MANIFEST.json")))
     return [c["property_id"] for c in man["checks"]]
 
 
@@ -42,7 +48,7 @@ def run_one(seed_dir, tier, props):
         env = dict(os.environ, VERIF_REPO=repo, VERIF_EVIDENCE_DIR=os.path.join(work, "ev"))
         res = {}
         for pid in props:
-            q = subprocess.run(["/venv/bin/python", "-m", "sa.check", pid, "--tier", tier], cwd=VERIF, env=env,
+            q = subprocess.run(["/venv/bin/python", "-m", "sa.check", pid, "--tier", tier], cwd=CHECKERS, env=env,
                                stdout=subprocess.PIPE, stderr=subprocess.STDOUT, text=True)
             rules = sorted(set(re.findall(r"^\s+(C\d\d\.R\d+\w*) ", q.stdout, re.M)))
             if q.returncode == 1:
@@ -87,7 +93,7 @@ def main():
         lines.append("| {} | {} | {} | {} | {} |".format(name, target, "yes" if hit else ("other" if anyhit else ("n/b" if target not in props else "NO")), fired, inc))
     lines.append("")
     lines.append("{} of {} seeded changes raise a VIOLATION in at least one check.".format(caught, len(out)))
-    open(os.path.join(VERIF, "seeded", "RESULTS.md"), "w").write("\n".join(lines) + "\n")
+    open(os.path.join(VERIF, "seeded", "RESULTS.md" if CHECKERS == VERIF else "RESULTS-frozen.md"), "w").write("\n".join(lines) + "\n")
     print("\n".join(lines))
 
 
